@@ -302,21 +302,17 @@ Fixpoint mi (o : op) (path : list nat) : nat -> mstate -> LS :=
       | _, _ => LPanic 5
       end
   | OCapture g o' => fun p s =>
-      let s0 := if has_backrefs then set_sb g (Some p) s else Some s in
-      match s0 with
-      | None => LPanic 12
-      | Some s0 =>
-          map_yield 1 (fun q s1 =>
-                         let s2 := if Nat.leb (pcount (cs_ s1)) g then set_pcount (S g) s1 else s1 in
-                         let s3 := set_pend g q (set_pstart g p s2) in
-                         if has_backrefs then
-                           match set_sb g (Some p) s3 with
-                           | Some s4 => set_eb g (Some q) s4
-                           | None => None
-                           end
-                         else Some s3)
-                    (mi o' (0 :: path) p s0)
-      end
+      (* the back-reference arrays are written when the group has matched, start and end together *)
+      map_yield 1 (fun q s1 =>
+                     let s2 := if Nat.leb (pcount (cs_ s1)) g then set_pcount (S g) s1 else s1 in
+                     let s3 := set_pend g q (set_pstart g p s2) in
+                     if has_backrefs then
+                       match set_sb g (Some p) s3 with
+                       | Some s4 => set_eb g (Some q) s4
+                       | None => None
+                       end
+                     else Some s3)
+                (mi o' (0 :: path) p s)
   | OChoice bs => fun p s =>
       (fix go (bs : list op) (i : nat) (s : mstate) : LS :=
          match bs with
